@@ -225,3 +225,31 @@ pub fn arb(k: usize, mode: u8) {
     }
     kani::cover!(true, "end of harness reached");
 }
+
+
+/// arbitrary_take_rest on literal seeds that are not (entirely) valid UTF-8 - the symbolic variant
+/// only finishes on the empty input.
+pub fn arb_take_rest_concrete(k: usize) {
+    use arbitrary::{Arbitrary, Unstructured};
+    const SEEDS: [&[u8]; 6] = [&[0x80], &[0x41, 0xFF, 0x41], &[0xE2, 0x82], &[0x41, 0x42, 0x43], &[0xC3, 0xA9, 0x80], &[0xF0, 0x9D, 0x84, 0x9E, 0xED, 0xA0, 0x80]];
+    let raw = SEEDS[k];
+    let a = <LeanString as Arbitrary>::arbitrary_take_rest(Unstructured::new(raw));
+    let b = <&str as Arbitrary>::arbitrary_take_rest(Unstructured::new(raw));
+    match (a, b) {
+        (Ok(t), Ok(s)) => {
+            assert!(t.len() == s.len(), "[C19] arbitrary_take_rest text length differs from <&str>");
+            let tb = t.as_bytes();
+            let sb = s.as_bytes();
+            let mut i = 0;
+            while i < 8 {
+                if i < sb.len() {
+                    assert!(tb[i] == sb[i], "[C19] arbitrary_take_rest text differs from <&str>");
+                }
+                i += 1;
+            }
+        }
+        (Err(_), Err(_)) => {}
+        _ => assert!(false, "[C19] arbitrary_take_rest Ok/Err differs from <&str>"),
+    }
+    kani::cover!(true, "end of harness reached");
+}
